@@ -250,8 +250,12 @@ func (e *env) once(cs *caseRec) *result {
 		// {A} && {B}: is the answer exactly what intersecting the selectors' span sets (instead of their trace
 		// sets) gives? Then it is that one defect whatever the terms are; any other wrong answer keeps its own signature.
 		if len(cs.Script.Sels) == 2 && cs.Script.Ops[0] == "&&" && (strings.HasPrefix(res.Kind, "trace-set-differs") || strings.HasPrefix(res.Kind, "limit/")) {
-			if alt, err := rt.EvalSpanIntersect(cs.Script, cs.DB, from, to, rt.Reading{}); err == nil && rt.ValidCut(alt, a.traceIDs(), cs.Req.Limit) == "" {
-				res.Sig = "{A}&&{B}/spans-intersected-instead-of-traces"
+			// (under any admissible reading of the terms: which stored texts count as numbers etc. is not this defect)
+			for _, rd := range append([]rt.Reading{{}}, rt.Readings(cs.Script)...) {
+				if alt, err := rt.EvalSpanIntersect(cs.Script, cs.DB, from, to, rd); err == nil && rt.ValidCut(alt, a.traceIDs(), cs.Req.Limit) == "" {
+					res.Sig = "{A}&&{B}/spans-intersected-instead-of-traces"
+					break
+				}
 			}
 		}
 	}
